@@ -9,6 +9,7 @@ import (
 	"encoding/json"
 	"errors"
 	"net/url"
+	"reflect"
 	"strings"
 )
 
@@ -160,5 +161,122 @@ func verifH_C16_operation_refs() {
 	} else {
 		verifAssert(ra != rb, "C16 operation refs: distinct external targets are never merged under one component name")
 	}
+	verifReach("end")
+}
+
+// verifDerefSchema: the JSON tree of a schema with every reference replaced by the tree of the
+// object it resolves to (through the Value pointers), to a fixed depth.
+func verifDerefSchema(r *SchemaRef, depth int) any {
+	if r == nil {
+		return nil
+	}
+	if r.Value == nil {
+		return "unresolved:" + r.Ref
+	}
+	if depth > 6 {
+		return "..."
+	}
+	s := r.Value
+	out := map[string]any{}
+	if s.Type != nil {
+		out["type"] = s.Type.Slice()
+	}
+	if s.MinLength != 0 {
+		out["minLength"] = s.MinLength
+	}
+	if s.Format != "" {
+		out["format"] = s.Format
+	}
+	if s.Items != nil {
+		out["items"] = verifDerefSchema(s.Items, depth+1)
+	}
+	if s.Not != nil {
+		out["not"] = verifDerefSchema(s.Not, depth+1)
+	}
+	if s.AdditionalProperties.Schema != nil {
+		out["additionalProperties"] = verifDerefSchema(s.AdditionalProperties.Schema, depth+1)
+	}
+	for k, p := range s.Properties {
+		out["p:"+k] = verifDerefSchema(p, depth+1)
+	}
+	for i, p := range s.AllOf {
+		out["allOf:"+string(rune('0'+i))] = verifDerefSchema(p, depth+1)
+	}
+	for i, p := range s.OneOf {
+		out["oneOf:"+string(rune('0'+i))] = verifDerefSchema(p, depth+1)
+	}
+	for i, p := range s.AnyOf {
+		out["anyOf:"+string(rune('0'+i))] = verifDerefSchema(p, depth+1)
+	}
+	return out
+}
+
+//verif:harness id=C16 tier=quick,thorough witness=end bounds="external schemas whose own file-local references sit below inline sub-schemas: an operation schema refers to e.json#/components/schemas/V where V reaches e.json's Leaf through inline items / additionalProperties / not / allOf / oneOf / anyOf / nested properties, the root having its own different component named Leaf; and a root component that is a whole-file reference next to an earlier-sorting component referring to an element inside the same file; after InternalizeRefs + serialise + reload (no external reads) every schema dereferences to the same content as before"
+func verifH_C16_external_structures() {
+	inner := `{"type":"object","properties":{"p":{"$ref":"#/components/schemas/Leaf"}}}`
+	vias := []string{
+		`{"type":"array","items":` + inner + `}`,
+		`{"type":"object","additionalProperties":` + inner + `}`,
+		`{"not":` + inner + `}`,
+		`{"allOf":[` + inner + `]}`,
+		`{"oneOf":[` + inner + `]}`,
+		`{"anyOf":[` + inner + `]}`,
+		`{"type":"object","properties":{"q":` + inner + `}}`,
+		`{"type":"array","items":{"type":"array","items":` + inner + `}}`,
+	}
+	shape := verifChoose("shape", len(vias)+1)
+	files := map[string]string{}
+	var rootText string
+	if shape < len(vias) {
+		files["/r/e.json"] = `{"components":{"schemas":{"V":` + vias[shape] + `,"Leaf":{"type":"string","minLength":9}}}}`
+		rootText = `{"openapi":"3.0.0","info":{"title":"t","version":"1"},"paths":{"/a":{"get":{"operationId":"op","responses":{"200":{"description":"d","content":{"application/json":{"schema":{"$ref":"e.json#/components/schemas/V"}}}}}}}},` +
+			`"components":{"schemas":{"Leaf":{"type":"integer"}}}}`
+	} else {
+		files["/r/rec.json"] = `{"type":"object","properties":{"owner":{"type":"string","minLength":7},"n":{"type":"integer"}}}`
+		rootText = `{"openapi":"3.0.0","info":{"title":"t","version":"1"},"paths":{"/a":{"get":{"operationId":"op","responses":{"200":{"description":"d","content":{"application/json":{"schema":{"$ref":"#/components/schemas/Alpha"}}}}}}}},` +
+			`"components":{"schemas":{"Alpha":{"type":"object","properties":{"o":{"$ref":"rec.json#/properties/owner"}}},"Record":{"$ref":"rec.json"}}}}`
+	}
+	rootLoc := &url.URL{Path: "/r/doc.json"}
+	loader := NewLoader()
+	loader.IsExternalRefsAllowed = true
+	loader.ReadFromURIFunc = func(l *Loader, u *url.URL) ([]byte, error) {
+		if u.Path == rootLoc.Path {
+			return []byte(rootText), nil
+		}
+		if t, ok := files[u.Path]; ok {
+			return []byte(t), nil
+		}
+		return nil, errors.New("no such file")
+	}
+	doc, err := loader.LoadFromDataWithPath([]byte(rootText), rootLoc)
+	verifAssert(err == nil && doc != nil, "C16 structures: the multi-file document loads")
+	if err != nil || doc == nil {
+		return
+	}
+	probe := func(d *T) any {
+		out := map[string]any{"op": verifDerefSchema(d.Paths.Value("/a").Get.Responses.Value("200").Value.Content["application/json"].Schema, 0)}
+		for _, name := range []string{"Leaf", "Alpha", "Record"} {
+			if r := d.Components.Schemas[name]; r != nil {
+				out[name] = verifDerefSchema(r, 0)
+			}
+		}
+		return out
+	}
+	before := probe(doc)
+	doc.InternalizeRefs(context.Background(), nil)
+	b, merr := json.Marshal(doc)
+	verifAssert(merr == nil, "C16 structures: the internalised document serialises")
+	if merr != nil {
+		return
+	}
+	l2 := NewLoader()
+	l2.ReadFromURIFunc = func(*Loader, *url.URL) ([]byte, error) { return nil, errors.New("no reads expected") }
+	doc2, rerr := l2.LoadFromData(b)
+	verifAssert(rerr == nil && doc2 != nil, "C16 structures: the internalised document loads with external references disallowed")
+	if rerr != nil || doc2 == nil {
+		return
+	}
+	after := probe(doc2)
+	verifAssert(reflect.DeepEqual(before, after), "C16 structures: after internalising, serialising and reloading every schema dereferences to the same content as before")
 	verifReach("end")
 }
